@@ -161,7 +161,7 @@ func runWith(p *protoRun, seed int64, s *sweepSlot, altered []byte) (o sweepOutc
 func sweepCases(a vh.Args) []*tcase {
 	perProto, perHeavy := 5, 1
 	if a.Tier == "thorough" || a.Search {
-		perProto, perHeavy = 1 << 30, 24
+		perProto, perHeavy = 1<<30, 24
 	}
 	var cases []*tcase
 	runs := protoRuns()
@@ -271,6 +271,7 @@ func evalSweep(a vh.Args, res *vh.Result, c *tcase, verdict, arg string, mm func
 	case !o.hit:
 		res.Distribution["sweep:not-delivered"]++
 	case o.accepted:
+		res.Note("sweep accepted: %s %s (model: %s %s)", s.typ, detail, verdict, arg)
 		switch verdict {
 		case "malformed":
 			mm("corr", s.typ+"/malformed-"+arg+"-accepted", "the recipient completes the protocol although the message is a malformed container: "+detail, "C12 (iii) decode_rejects_malformed", true)
